@@ -26,7 +26,7 @@ pub struct Exemplar {
     pub datagram: Vec<u8>,
     /// the same packet sealed under another session's key and under another protocol id
     pub other_key: Option<Vec<u8>>,
-    pub other_protocol: Option<Vec<u8>>,
+    pub other_protocol: Vec<(u64, Vec<u8>)>,
     /// byte positions that are neither sealed nor bound (request prefix high nibble only)
     pub skip_bits: Vec<(usize, u8)>,
 }
@@ -70,7 +70,7 @@ pub fn exemplars() -> Result<Vec<Exemplar>, Violation> {
     let c_requesting = c1.clone();
     let (req, _) = nc::cli_update(&mut c1, Duration::from_millis(250))?.ok_or_else(|| fail("no request"))?;
     // every byte of the request except the prefix high nibble is sealed or a bound public field... or the version string
-    v.push(Exemplar { name: "connection request -> server", rx: Rx::Server(s_unknown, client_addr(1)), datagram: req.clone(), other_key: None, other_protocol: None, skip_bits: (4..8).map(|b| (0usize, 1u8 << b)).collect() });
+    v.push(Exemplar { name: "connection request -> server", rx: Rx::Server(s_unknown, client_addr(1)), datagram: req.clone(), other_key: None, other_protocol: vec![], skip_bits: (4..8).map(|b| (0usize, 1u8 << b)).collect() });
     // connection requests whose public fields are right but whose sealed token was made for something else
     {
         use crate::props::hsworld::request_datagram;
@@ -91,7 +91,7 @@ pub fn exemplars() -> Result<Vec<Exemplar>, Violation> {
         for (name, t) in variants {
             let d = request_datagram(&t);
             // presented as the "other key / other protocol" variant of the genuine request exemplar
-            v.push(Exemplar { name, rx: Rx::Server(server.clone(), client_addr(1)), datagram: req.clone(), other_key: Some(d), other_protocol: None, skip_bits: vec![(usize::MAX, 0)] });
+            v.push(Exemplar { name, rx: Rx::Server(server.clone(), client_addr(1)), datagram: req.clone(), other_key: Some(d), other_protocol: vec![], skip_bits: vec![(usize::MAX, 0)] });
         }
     }
     let SR::Send { bytes: challenge, .. } = nc::srv_process(&mut server, client_addr(1), &req)? else { return Err(fail("no challenge")) };
@@ -100,7 +100,7 @@ pub fn exemplars() -> Result<Vec<Exemplar>, Violation> {
         rx: Rx::Client(c_requesting.clone()),
         datagram: challenge.clone(),
         other_key: Some(reseal(&challenge, &t1.server_to_client_key, &t2.server_to_client_key, PROTOCOL, PROTOCOL)),
-        other_protocol: Some(reseal(&challenge, &t1.server_to_client_key, &t1.server_to_client_key, PROTOCOL, PROTOCOL + 1)),
+        other_protocol: proto_variants(|np| reseal(&challenge, &t1.server_to_client_key, &t1.server_to_client_key, PROTOCOL, np)),
         skip_bits: vec![],
     });
     v.push(Exemplar {
@@ -108,7 +108,7 @@ pub fn exemplars() -> Result<Vec<Exemplar>, Violation> {
         rx: Rx::Client(c_requesting),
         datagram: nc::seal(&Packet::ConnectionDenied, PROTOCOL, 1 << 50, &t1.server_to_client_key),
         other_key: Some(nc::seal(&Packet::ConnectionDenied, PROTOCOL, 1 << 50, &t2.server_to_client_key)),
-        other_protocol: Some(nc::seal(&Packet::ConnectionDenied, PROTOCOL + 1, 1 << 50, &t1.server_to_client_key)),
+        other_protocol: proto_variants(|np| nc::seal(&Packet::ConnectionDenied, np, 1 << 50, &t1.server_to_client_key)),
         skip_bits: vec![],
     });
     let s_pending = server.clone();
@@ -120,7 +120,7 @@ pub fn exemplars() -> Result<Vec<Exemplar>, Violation> {
         rx: Rx::Server(s_pending, client_addr(1)),
         datagram: resp.clone(),
         other_key: Some(reseal(&resp, &t1.client_to_server_key, &t2.client_to_server_key, PROTOCOL, PROTOCOL)),
-        other_protocol: Some(reseal(&resp, &t1.client_to_server_key, &t1.client_to_server_key, PROTOCOL, PROTOCOL + 1)),
+        other_protocol: proto_variants(|np| reseal(&resp, &t1.client_to_server_key, &t1.client_to_server_key, PROTOCOL, np)),
         skip_bits: vec![],
     });
     let SR::Connected { bytes: ka, .. } = nc::srv_process(&mut server, client_addr(1), &resp)? else { return Err(fail("not connected")) };
@@ -129,7 +129,7 @@ pub fn exemplars() -> Result<Vec<Exemplar>, Violation> {
         rx: Rx::Client(c_responding),
         datagram: ka.clone(),
         other_key: Some(reseal(&ka, &t1.server_to_client_key, &t2.server_to_client_key, PROTOCOL, PROTOCOL)),
-        other_protocol: Some(reseal(&ka, &t1.server_to_client_key, &t1.server_to_client_key, PROTOCOL, PROTOCOL + 1)),
+        other_protocol: proto_variants(|np| reseal(&ka, &t1.server_to_client_key, &t1.server_to_client_key, PROTOCOL, np)),
         skip_bits: vec![],
     });
     nc::cli_process(&mut c1, &ka)?;
@@ -148,7 +148,7 @@ pub fn exemplars() -> Result<Vec<Exemplar>, Violation> {
             name,
             rx: Rx::Server(server.clone(), client_addr(1)),
             other_key: Some(reseal(&d, &t1.client_to_server_key, &t2.client_to_server_key, PROTOCOL, PROTOCOL)),
-            other_protocol: Some(reseal(&d, &t1.client_to_server_key, &t1.client_to_server_key, PROTOCOL, PROTOCOL + 1)),
+            other_protocol: proto_variants(|np| reseal(&d, &t1.client_to_server_key, &t1.client_to_server_key, PROTOCOL, np)),
             datagram: d,
             skip_bits: vec![],
         });
@@ -176,12 +176,22 @@ pub fn exemplars() -> Result<Vec<Exemplar>, Violation> {
             name,
             rx: Rx::Client(c1.clone()),
             other_key: Some(reseal(&d, &t1.server_to_client_key, &t2.server_to_client_key, PROTOCOL, PROTOCOL)),
-            other_protocol: Some(reseal(&d, &t1.server_to_client_key, &t1.server_to_client_key, PROTOCOL, PROTOCOL + 1)),
+            other_protocol: proto_variants(|np| reseal(&d, &t1.server_to_client_key, &t1.server_to_client_key, PROTOCOL, np)),
             datagram: d,
             skip_bits: vec![],
         });
     }
     Ok(v)
+}
+
+/// the protocol ids a sealed datagram is re-sealed under: ours + 1 and ours with every single bit flipped
+fn proto_variants(f: impl Fn(u64) -> Vec<u8>) -> Vec<(u64, Vec<u8>)> {
+    let mut v = vec![(PROTOCOL + 1, f(PROTOCOL + 1))];
+    for b in 0..64 {
+        let np = PROTOCOL ^ (1u64 << b);
+        v.push((np, f(np)));
+    }
+    v
 }
 
 /// opens a genuine datagram with its key and seals the same packet with another key / protocol id
@@ -230,8 +240,8 @@ pub fn tamper_cases(e: &Exemplar, tier: Tier) -> Vec<(String, Vec<u8>)> {
     if let Some(d) = &e.other_key {
         v.push(("same packet sealed under another session's key".into(), d.clone()));
     }
-    if let Some(d) = &e.other_protocol {
-        v.push(("same packet sealed under another protocol id".into(), d.clone()));
+    for (np, d) in &e.other_protocol {
+        v.push((format!("same packet sealed under protocol id {:#x} (ours is {:#x})", np, crate::nc::PROTOCOL), d.clone()));
     }
     v
 }
